@@ -249,6 +249,7 @@ func c19Frames(c *rt.C, r *rand.Rand) {
 	db := OpenDB(DBOpt{Mem: mem})
 	w := db.N.NewWriter()
 	var lens []string
+	scratch := make([]byte, 4)
 	for i := 0; i < 24 && !c.Failed(); i++ {
 		l := c19Lens[r.Intn(len(c19Lens))]
 		if r.Intn(3) == 0 {
@@ -279,13 +280,21 @@ func c19Frames(c *rt.C, r *rand.Rand) {
 			c.Violate("encode-checksum", fmt.Sprintf("EncodeItem checksum %08x != crc32(prefix)^crc32(bytes) %08x", cs, specChecksum(1, [][]byte{item})), nil)
 			break
 		}
-		for _, ver := range []int{1, 0} {
+		// the scratch buffer is the caller's and is reused the way the file reader reuses its own: what an
+		// earlier call (of either format version) left in it, or any other dirt, must not matter
+		switch r.Intn(3) {
+		case 0:
+			scratch = []byte{0xA5, 0x5A, 0xFF, 0x01}
+		case 1:
+			scratch = make([]byte, 4)
+		}
+		for _, ver := range [][]int{{1, 0}, {0, 1}}[r.Intn(2)] {
 			if ver == 0 && l > 65535 {
 				continue
 			}
 			stream := append(specFrame(ver, item), specFrame(ver, nil)...)
 			rd := bytes.NewReader(stream)
-			got, dcs, err := db.N.DecodeItem(ver, make([]byte, 4), rd)
+			got, dcs, err := db.N.DecodeItem(ver, scratch, rd)
 			c.Sig("decode/v%d/len=%s", ver, lenClass(l))
 			if err != nil || got == nil {
 				c.Violate("decode-error", fmt.Sprintf("DecodeItem(version %d) of a %d-byte item: item=%v err=%v", ver, l, got != nil, err), nil)
@@ -302,12 +311,12 @@ func c19Frames(c *rt.C, r *rand.Rand) {
 			if db.A != nil {
 				db.A.Free(unsafePtr(got)) // decoded items are allocator blocks in user-managed mode
 			}
-			end, _, err := db.N.DecodeItem(ver, make([]byte, 4), rd)
+			end, _, err := db.N.DecodeItem(ver, scratch, rd)
 			if end != nil || err != nil {
 				c.Violate("decode-terminator", fmt.Sprintf("terminator not decoded as end-of-stream (item=%v err=%v)", end != nil, err), nil)
 				break
 			}
-			if _, _, err := db.N.DecodeItem(ver, make([]byte, 4), rd); err != io.EOF {
+			if _, _, err := db.N.DecodeItem(ver, scratch, rd); err != io.EOF {
 				c.Violate("decode-eof", fmt.Sprintf("reading past the terminator returned err=%v, want io.EOF", err), nil)
 				break
 			}
@@ -485,7 +494,7 @@ func init() {
 	rt.Register(&rt.Prop{
 		ID: "C19", Level: "exploration",
 		Technique: "runtime monitoring: round trips compared with an independently written frame/checksum specification",
-		Rule: "case index mod 4 selects: KV helpers (keys 0..65535 bytes incl. prefixes and equal keys; CompareKV sign vs bytes.Compare), frame-level EncodeItem/DecodeItem in both format versions against a spec encoder/decoder (lengths 1,2,3,4,5,255,256,65535,65536,65537,1MiB,random; contents zeros, 0xFF, embedded 2- and 4-byte lengths and terminators, frame look-alikes), " +
+		Rule: "case index mod 4 selects: KV helpers (keys 0..65535 bytes incl. prefixes and equal keys; CompareKV sign vs bytes.Compare), frame-level EncodeItem/DecodeItem in both format versions against a spec encoder/decoder (one caller-owned scratch buffer reused across calls and versions, zeroed, dirty or as the previous call left it; lengths 1,2,3,4,5,255,256,65535,65536,65537,1MiB,random; contents zeros, 0xFF, embedded 2- and 4-byte lengths and terminators, frame look-alikes), " +
 			"file-level Put→StoreToDisk→independent parse of shard files and checksums.json→LoadFromDisk, and hand-written version-0 directories→LoadFromDisk. evaluations = round trips; distinct = (path, format version, length class, content style / size class, disk block size) tuples",
 		Assumptions: []string{"items are non-empty (length 0 is the terminator by design)", "nitro.DiskBlockSize (exported variable) is varied by the harness"},
 		Cases: func(t string) int {
